@@ -268,6 +268,9 @@ func (s *FakeServer) List(ctx context.Context, opts metav1.ListOptions) (runtime
 		return nil, nil
 	case "notlist":
 		return &corev1.Pod{}, nil
+	case "status":
+		// what an API server answers when it refuses: an object with list metadata and no items, but not a list
+		return &metav1.Status{Status: metav1.StatusFailure, Reason: metav1.StatusReasonForbidden, Code: 403}, nil
 	case "nonobject":
 		return &metav1.List{ListMeta: metav1.ListMeta{ResourceVersion: strconv.Itoa(rv)}, Items: []runtime.RawExtension{{Object: &metav1.Status{}}, {Raw: []byte("{}")}}}, nil
 	case "nonobject-mid":
